@@ -47,3 +47,30 @@ def sortNats (l : List Nat) : List Nat := l.foldr insertNat []
 def showCardSet (l : List Card) : String := showNats (sortNats (l.map Card.idx))
 
 end Bridge.Driver
+
+namespace Bridge.Driver
+/-! text arguments travel hex-encoded (UTF-8 bytes), `-` = empty string -/
+def hexVal? (c : Char) : Option Nat :=
+  if '0' ≤ c ∧ c ≤ '9' then some (c.toNat - '0'.toNat)
+  else if 'a' ≤ c ∧ c ≤ 'f' then some (c.toNat - 'a'.toNat + 10) else none
+
+def hexBytes? : List Char → Option (List UInt8)
+  | [] => some []
+  | a :: b :: r => do
+    let x ← hexVal? a; let y ← hexVal? b; let t ← hexBytes? r
+    pure (UInt8.ofNat (x * 16 + y) :: t)
+  | _ => none
+
+def unhex? (s : String) : Option (List Char) :=
+  if s = "-" then some [] else
+  match hexBytes? s.toList with
+  | none => none
+  | some bs => (String.fromUTF8? (ByteArray.mk bs.toArray)).map String.toList
+
+def hexDigit (n : Nat) : Char := if n < 10 then Char.ofNat ('0'.toNat + n) else Char.ofNat ('a'.toNat + n - 10)
+def hexOfBytes (bs : List UInt8) : String :=
+  String.ofList (bs.flatMap fun b => [hexDigit (b.toNat / 16), hexDigit (b.toNat % 16)])
+def hexOf (s : List Char) : String :=
+  if s = [] then "-" else hexOfBytes (String.ofList s).toUTF8.toList
+
+end Bridge.Driver
